@@ -64,12 +64,18 @@ SpecialCases ==
             /\ Emit1(X1[dt], W0[dt], Bia(dt, 2), attrs, "_zero_kernel") /\ Emit1(X1f[dt], W1[dt], Nil, attrs, "_one_infinity")
       /\ \A attrs \in {<<>>, <<AIs("pads", <<0, 1, 0, 1>>)>>} : Emit1(X2, W2, Nil, attrs, "_2d") /\ Emit1(X2, W2, Bia("f32", 2), attrs, "_2d")
 
+\* long images (an output count that is no multiple of a block size)
+LongConvCases ==
+   /\ P(ConvCase("long", <<1, 1, 40003>>, <<1, 1, 2>>, <<>>, TRUE, "f32", <<"1d", "long">>))
+   /\ P(ConvCase("long", <<1, 1, 40003>>, <<2, 1, 3>>, <<AIs("strides", <<2>>), AIs("pads", <<1, 1>>)>>, FALSE, "f32", <<"1d", "long">>))
+   /\ P(ConvCase("long", <<1, 1, 199, 201>>, <<1, 1, 2, 2>>, <<>>, TRUE, "f32", <<"2d", "long">>))
+
 Init ==
    \/ ("conv1d" \in Fams /\ st \in [fam : {"conv1d"}, L : 1..MaxL, k : 1..MaxK1, s : 1..MaxSD, d : 1..MaxSD, done : {FALSE}])
    \/ ("conv2d" \in Fams /\ st \in [fam : {"conv2d"}, H : 2..MaxHW, W : 2..MaxHW, kh : 1..MaxK2, kw : 1..MaxK2, done : {FALSE}])
 Emit ==
    /\ ~st.done
-   /\ CASE st.fam = "conv1d" -> Conv1D(st.L, st.k, st.s, st.d) /\ (st.L = 1 /\ st.k = 1 /\ st.s = 1 /\ st.d = 1 => SpecialCases)
+   /\ CASE st.fam = "conv1d" -> Conv1D(st.L, st.k, st.s, st.d) /\ (st.L = 1 /\ st.k = 1 /\ st.s = 1 /\ st.d = 1 => SpecialCases /\ LongConvCases)
         [] st.fam = "conv2d" -> Conv2D(st.H, st.W, st.kh, st.kw)
    /\ st' = [st EXCEPT !.done = TRUE]
 Next == Emit
